@@ -66,41 +66,67 @@ impl Walk<'_> {
             let same = |x: &chess_lookup::BookMove, y: &chess_lookup::BookMove| x.source == y.source && x.dest == y.dest && x.children == y.children;
             let n = children.len();
             let mut wrong: Option<String> = None;
-            let (lo, hi) = handle.into_iter().size_hint();
-            if lo > n || hi.map_or(false, |h| h < n) {
-                wrong = Some(format!("size_hint() = ({lo}, {hi:?}) but next() yields {n} moves"));
-            }
-            let cnt = handle.into_iter().count();
-            if cnt != n {
-                wrong = Some(format!("count() = {cnt} but next() yields {n} moves"));
-            }
-            let folded = handle.into_iter().fold(0usize, |k, _| k + 1);
-            if folded != n {
-                wrong = Some(format!("fold visits {folded} moves but next() yields {n}"));
-            }
-            match (handle.into_iter().last(), children.last()) {
-                (None, None) => {}
-                (Some(x), Some(y)) if same(&x, y) => {}
-                (x, y) => wrong = Some(format!("last() = {x:?} but the last move from next() is {y:?}")),
-            }
-            for k in 0..=n + 1 {
-                let mut it = handle.into_iter();
-                let got = it.nth(k);
-                let ok = match (&got, children.get(k)) {
-                    (None, None) => true,
-                    (Some(x), Some(y)) => same(x, y) && match (it.next(), children.get(k + 1)) {
-                        (None, None) => true,
-                        (Some(p), Some(q)) => same(&p, q),
-                        _ => false,
-                    },
-                    _ => false,
+            // from a fresh iterator (taken = 0) and from one resumed after `taken` calls of next()
+            'prefixes: for taken in 0..=n {
+                let resumed = || {
+                    let mut it = handle.into_iter();
+                    for _ in 0..taken {
+                        it.next();
+                    }
+                    it
                 };
-                if !ok {
-                    wrong = Some(format!("nth({k}) = {got:?} (then next()) differs from the {n} moves next() yields"));
+                let rest = &children[taken..];
+                let left = rest.len();
+                let at = if taken == 0 { String::new() } else { format!("after {taken} next() calls: ") };
+                let (lo, hi) = resumed().size_hint();
+                if lo > left || hi.map_or(false, |h| h < left) {
+                    wrong = Some(format!("{at}size_hint() = ({lo}, {hi:?}) but next() yields {left} more moves"));
                     break;
                 }
+                let cnt = resumed().count();
+                if cnt != left {
+                    wrong = Some(format!("{at}count() = {cnt} but next() yields {left} more moves"));
+                    break;
+                }
+                let folded = resumed().fold(0usize, |k, _| k + 1);
+                if folded != left {
+                    wrong = Some(format!("{at}fold visits {folded} moves but next() yields {left} more"));
+                    break;
+                }
+                match (resumed().last(), rest.last()) {
+                    (None, None) => {}
+                    (Some(x), Some(y)) if same(&x, y) => {}
+                    (x, y) => {
+                        wrong = Some(format!("{at}last() = {x:?} but the last move from next() is {y:?}"));
+                        break;
+                    }
+                }
+                for k in 0..=left + 1 {
+                    let mut it = resumed();
+                    let got = it.nth(k);
+                    let ok = match (&got, rest.get(k)) {
+                        (None, None) => true,
+                        (Some(x), Some(y)) => same(x, y) && match (it.next(), rest.get(k + 1)) {
+                            (None, None) => true,
+                            (Some(p), Some(q)) => same(&p, q),
+                            _ => false,
+                        },
+                        _ => false,
+                    };
+                    if !ok {
+                        wrong = Some(format!("{at}nth({k}) = {got:?} (then next()) differs from the {left} moves next() yields"));
+                        break 'prefixes;
+                    }
+                }
+                // far past the end
+                for k in [left + 2, left + 15, left + 28, 255, 256, 65_536, usize::MAX] {
+                    if resumed().nth(k).is_some() {
+                        wrong = Some(format!("{at}nth({k}) returned a move although only {left} remain"));
+                        break 'prefixes;
+                    }
+                }
+                self.c.add("traversal-method-comparisons", 5 + left as u64 + 7);
             }
-            self.c.add("traversal-method-comparisons", 5 + n as u64);
             if let Some(w) = wrong {
                 self.c.violation(
                     "book-traversal-methods-disagree",
